@@ -148,9 +148,15 @@ def run(tier, seed, opens):
         for net in ('bitcoin', 'litecoin'):
             k = Key(rng.randrange(1, 2 ** 255), network=net, compressed=rng.random() < 0.5)
             s = k.wif()
-            for m in [s] + mutations(s, b58.ALPHABET, rng, per_string):
+            # correctly checksummed strings whose payload is not a key: wrong length, scalar 0, scalar n, scalar 2^256-1
+            pw = bytes.fromhex(NETWORK_DEFINITIONS[net]['prefix_wif'])
+            N_ = 0xFFFFFFFFFFFFFFFFFFFFFFFFFFFFFFFEBAAEDCE6AF48A03BBFD25E8CD0364141
+            crafted = [b58.check_encode(pw + body + flag) for flag in (b'', b'\x01')
+                       for body in (b'\x00' * 32, N_.to_bytes(32, 'big'), b'\xff' * 32, bytes(rng.getrandbits(8) for _ in range(31)),
+                                    bytes(rng.getrandbits(8) | 2 for _ in range(33)), bytes(rng.getrandbits(8) for _ in range(16)), b'')]
+            for m in [s] + crafted + mutations(s, b58.ALPHABET, rng, per_string):
                 p = b58.check_decode(m)
-                okm = p is not None and len(p) in (33, 34) and p[:1] == bytes.fromhex(NETWORK_DEFINITIONS[net]['prefix_wif']) and (len(p) == 33 or p[-1] == 1)
+                okm = p is not None and len(p) in (33, 34) and p[:1] == pw and (len(p) == 33 or p[-1] == 1) and 0 < int.from_bytes(p[1:33], 'big') < N_
                 sec = int.from_bytes(p[1:33], 'big') if okm else None
                 check('Key(wif)', lambda x: Key(x, network=net), m, sec, lambda r: r.secret)
             hk = HDKey(network=net)
